@@ -21,6 +21,7 @@ def _snap_any(E, r):
     d["name"] = r.name
     d["axis_names"] = list(r.axis_names)
     d["ndim"] = r.ndim
+    d["right_flags"] = [bool(b.includes_right_edge) for b in r._binnings]
     # derived geometry (lazily cached in the binning objects): numpy-style edges per axis, may be refused for gapped selections
     if r.ndim == 1:
         d["edges"] = _lst(E.attempt(lambda: r.edges))
@@ -83,12 +84,16 @@ class C11Index1D(Harness):
         yield "mask-static-touched", dict(M=M, kind="mask", size=M, static=True, touch=True)
         yield "array2-static-touched", dict(M=M, kind="array", n=2, static=True, touch=True)
         yield "slice-touched", dict(M=M, kind="slice", a="sym", b="sym", step=None, touch=True)
+        # source over a fixed-width binning (right edge excluded): the flag survives slicing / masking
+        yield "slice-fixed", dict(M=M, kind="slice", a="sym", b="sym", step=None, fixed=True)
+        yield "mask-fixed", dict(M=M, kind="mask", size=M, fixed=True)
+        yield "select-all-forcecopy", dict(M=M, kind="select_all", force_copy=True)
         yield "select-axis1", dict(M=M, kind="select_bad_axis")
         yield "select-all", dict(M=M, kind="select_all")
 
     def declare(self, cx, p):
         M = p["M"]
-        x = {"f": declare_cells(cx, "f", [M], "int"), "q": declare_cells(cx, "q", [M], "int"), "e": declare_edges(cx, "e", M),
+        x = {"f": declare_cells(cx, "f", [M], "int"), "q": declare_cells(cx, "q", [M], "int"), "e": declare_edges(cx, "e", M) if not p.get("fixed") else [float(j) for j in range(M + 1)],
              "u": cx.int("u", 0), "o": cx.int("o", 0)}
         k = p["kind"]
         if k == "int":
@@ -119,17 +124,20 @@ class C11Index1D(Harness):
         np = E.np
         H1 = E.mod("physt.histogram1d").Histogram1D
         b = _pairs(np, x["e"]) if p.get("static") else np.asarray(x["e"])
+        if p.get("fixed"):
+            b = E.mod("physt.binnings").FixedWidthBinning(bin_width=1.0, bin_count=p["M"], bin_times_min=0)
         h = H1(b, np.asarray(x["f"], dtype=int), np.asarray(x["q"], dtype=int), underflow=x["u"], overflow=x["o"], name="n", axis_name="ax")
         if p.get("touch"):
             _touch(h)
         if p["kind"] == "select_bad_axis":
             r = E.attempt(h.select, 1, 0)
         elif p["kind"] == "select_all":
-            r = E.attempt(h.select, 0, slice(None))
-            return {"res": _snap_any(E, r), "same_object": r is h, "after": snap1d(E, h)}
+            r = E.attempt(h.select, 0, slice(None), force_copy=True) if p.get("force_copy") else E.attempt(h.select, 0, slice(None))
+            return {"res": _snap_any(E, r), "same_object": r is h, "after": snap1d(E, h), "source_right_flag": bool(h.binning.includes_right_edge)}
         else:
             r = E.attempt(lambda: h[self._index(E, p, x)])
-        return {"res": _snap_any(E, r), "after": snap1d(E, h)}
+        shares = (not isinstance(r, (Raised, tuple))) and any(rb is sb for rb in r._binnings for sb in h._binnings)
+        return {"res": _snap_any(E, r), "after": snap1d(E, h), "shares_binning": shares, "source_right_flag": bool(h.binning.includes_right_edge)}
 
     def oracle(self, cx, p, x, obs):
         M = p["M"]
@@ -147,6 +155,8 @@ class C11Index1D(Harness):
             yield "bad_axis_refused", "raised" in res
             return
         if k == "select_all":
+            if p.get("force_copy"):
+                yield "force_copy_gives_a_new_object", obs["same_object"] is False
             yield "identity_select", "raised" not in res and all(True for _ in [0])
             if "raised" not in res:
                 yield "identity_contents", z3.And([cx.eq(res["freq"][j], f[j]) for j in range(M)])
@@ -213,6 +223,8 @@ class C11Index1D(Harness):
             yield "widths_match_bins", z3.And([cx.t(res["widths"][t]) == e[j + 1] - e[j] for t, j in enumerate(sel)] + [z3.BoolVal(True)])
         if contiguous and sel:
             yield "edges_available", not isinstance(res["edges"], Raised)
+        yield "right_edge_flag_kept", res["right_flags"] == [obs["source_right_flag"]]
+        yield "binning_objects_not_shared", obs["shares_binning"] is False
         yield "meta", res["name"] == "n" and res["axis_names"] == ["ax"] and res["cls"] == "Histogram1D"
         yield "dtype", res["dtype"] == "int64" == res["fdtype"] == res["edtype"]
         if contiguous and sel:
@@ -240,12 +252,14 @@ class C11IndexND(Harness):
         for sp in ("s,s", ":,s", "i,s"):
             yield f"nd-S2x3-{sp.replace(',', '_').replace(':', 'c')}-static-touched", dict(shape=[2, 3], spec=sp, static=True, touch=True)
         yield "nd-S2x3-s_s-touched", dict(shape=[2, 3], spec="s,s", touch=True)
+        for sp in ("s,s", "i,s", "s,i", "i"):
+            yield f"nd-S2x3-{sp.replace(',', '_')}-fixed", dict(shape=[2, 3], spec=sp, fixed=True)
         yield "nd-neg-step", dict(shape=[2, 3], spec="r")
 
     def declare(self, cx, p):
         shape = p["shape"]
-        x = {"f": declare_cells(cx, "f", shape, "int"), "q": declare_cells(cx, "q", shape, "int"), "e": [declare_edges(cx, f"e{k}_", shape[k]) for k in range(len(shape))],
-             "ix": []}
+        x = {"f": declare_cells(cx, "f", shape, "int"), "q": declare_cells(cx, "q", shape, "int"),
+             "e": [declare_edges(cx, f"e{k}_", shape[k]) if not p.get("fixed") else [float(j) for j in range(shape[k] + 1)] for k in range(len(shape))], "ix": []}
         for t, c in enumerate(p["spec"].split(",")):
             n = shape[t] if t < len(shape) else 2
             if c == "i":
@@ -264,6 +278,9 @@ class C11IndexND(Harness):
         names = ["a", "b", "c"][:D]
         cls = nd.Histogram2D if D == 2 else nd.HistogramND
         mk = (lambda e: _pairs(np, e)) if p.get("static") else np.asarray
+        if p.get("fixed"):
+            FWB = E.mod("physt.binnings").FixedWidthBinning
+            mk = lambda e: FWB(bin_width=1.0, bin_count=len(e) - 1, bin_times_min=0)  # noqa: E731
         h = cls([mk(x["e"][k]) for k in range(D)], np.asarray(nested(x["f"], shape), dtype=int), errors2=np.asarray(nested(x["q"], shape), dtype=int), axis_names=names, name="n")
         if p.get("touch"):
             _touch(h)
@@ -279,7 +296,8 @@ class C11IndexND(Harness):
                 key.append(slice(None))
         idx = tuple(key) if len(key) > 1 else key[0]
         r = E.attempt(lambda: h[idx])
-        return {"res": _snap_any(E, r), "after": snapnd(E, h), "distinct": r is not h}
+        shares = (not isinstance(r, (Raised, tuple))) and any(rb is sb for rb in r._binnings for sb in h._binnings)
+        return {"res": _snap_any(E, r), "after": snapnd(E, h), "distinct": r is not h, "shares_binning": shares, "source_right_flags": [bool(b.includes_right_edge) for b in h._binnings]}
 
     def oracle(self, cx, p, x, obs):
         shape = p["shape"]
@@ -335,6 +353,8 @@ class C11IndexND(Harness):
             return
         kshape = [len(sel[k]) for k in kept]
         yield "ndim", res["ndim"] == len(kept)
+        yield "right_edge_flags_kept", res["right_flags"] == [obs["source_right_flags"][k] for k in kept]
+        yield "binning_objects_not_shared", obs["shares_binning"] is False
         yield "axis_names", res["axis_names"] == [names[k] for k in kept]
         yield "class", res["cls"] == {1: "Histogram1D", 2: "Histogram2D"}.get(len(kept), "HistogramND")
         got_shape = [len(res["bins"])] if len(kept) == 1 else [len(b) for b in res["bins"]]
